@@ -183,7 +183,14 @@ def timers_scheduled(cx, iid):
         syn = R.body("server::Server::handle_handshake_syn")
         ins = call_sites(syn, "HashMap::insert", r"arg1\.clients")
         pushes = [l for l, t in syn.calls("BinaryHeap::push") if "EventType::ResendHandshakeSynAck{}" in show(syn.call_expr(t))]
-        cx.preceded_by(inst, syn, ins, pushes, "pending client without handshake timer", "client_events.push(ResendHandshakeSynAck ..)")
+        # the entry and its timer are created together, in either order: every path through the insert has passed, or will
+        # pass, the push of the handshake timer
+        for iloc, ilab in ins:
+            before = syn.reach_from_entry_avoiding(iloc, pushes) is None if pushes else False
+            after = syn.reach_exit_avoiding(iloc, pushes) is None if pushes else False
+            inst.site(syn, iloc, "clients.insert with handshake timer %s" % ("before" if before else "after" if after else "missing"))
+            if not (before or after):
+                inst.violation(syn.path, "pending client without handshake timer", "`%s` can be executed on a path that neither has scheduled nor will schedule the ResendHandshakeSynAck timer" % ilab[:60], at=syn.span_at(iloc))
         if n < 2:
             inst.violation("server::Server", "transitions to Closing/Closed", "no transition to Closing and to Closed found in the server (anchor)")
         # expiry of each timer forgets the client: handle_event writes Fin in all three arms
